@@ -154,14 +154,20 @@ fn run_case(env: &Env, c: &Case) -> Verdict {
     let text = format!("INSERT INTO ks.t (a) VALUES (1) {marker}");
     let outcome = env.rt.block_on(async {
         // every node must be reachable, or plans are shorter than the model assumes
-        let ok = wait_until(D, || (0..NODES).all(|n| !env.mock.live_conns(n).is_empty()) && (0..NODES).map(|n| env.mock.live_conns(n).len()).sum::<usize>() > NODES).await;
+        // every node must be usable by the driver (its own view: a pool with a working connection), or plans
+        // are shorter than the model assumes
+        let ok = wait_until(D, || {
+            // node side: connections closed by an earlier case are gone and replaced (pool of one per node + control)
+            let node_side = (0..NODES).all(|n| !env.mock.live_conns(n).is_empty()) && (0..NODES).map(|n| env.mock.live_conns(n).len()).sum::<usize>() > NODES;
+            let st = session.get_cluster_state();
+            let nodes = st.get_nodes_info();
+            node_side && nodes.len() == NODES && nodes.iter().all(|n| n.is_connected())
+        })
+        .await;
         if !ok {
             return Err("nodes did not come back".to_string());
         }
-        if PREV_CLOSED.with(|p| p.replace(false)) {
-            // let the pools put the fresh connections into service
-            tokio::time::sleep(Duration::from_millis(30)).await;
-        }
+        let _ = PREV_CLOSED.with(|p| p.replace(false));
         let fut = async {
             match c.kind {
                 Kind::Query => {
@@ -198,7 +204,11 @@ fn run_case(env: &Env, c: &Case) -> Verdict {
         }
     }
     let seen = script.seen.lock().unwrap().clone();
-    vassert!(!seen.is_empty(), "no_frame", "the request produced no frame at all; result {result:?}");
+    if seen.is_empty() {
+        // the request met a connection that had just died and failed before anything was written: nothing to judge
+        vassert!(result.is_err(), "result_without_frame", "the request succeeded although no frame of it reached the cluster");
+        return Ok(CaseInfo::new(false).class("no_frame_sent"));
+    }
 
     // (safety) independent of the policy
     if !c.idempotent {
